@@ -364,6 +364,71 @@ def path_discharge(F, site):
 
 
 
+# ---- D2c: countdown index ----------------------------------------------------------------------------
+def _shared_root(fn, v, depth=0):
+    """the container expression is reached from a `&T` (shared) parameter: nothing can change its length during the call"""
+    while isinstance(v, tuple) and v and depth < 12:
+        depth += 1
+        if v[0] in ('ref', 'deref', 'cast'):
+            v = v[1]
+        elif v[0] in ('field', 'index', 'downcast'):
+            v = v[1]
+        elif v[0] == 'call' and v[1].endswith(('Deref>::deref', '::as_slice', '::as_str', 'Index<I>>::index')) and v[2]:
+            v = v[2][0]
+        elif v[0] == 'param':
+            ty = fn.local_ty(v[1])
+            return ty.startswith('&') and ' mut ' not in ty.split('>')[0][:24] and not ty.startswith('&mut')
+        else:
+            return False
+    return False
+
+
+def countdown_index(F, site):
+    """X[v] where v starts at X.len(), is only ever decremented, and at least one decrement lies on every path from the
+    initialisation to the access: then v < X.len() (the decrement itself is a checked subtraction, discharged separately)"""
+    fn = site['f']
+    t = site['term']
+    if not (site['kind'] == 'call' and psc.is_index_call(site['what']) and len(t['args']) == 2):
+        return None
+    recv, idx = sym(fn, t['args'][0]), strip(sym(fn, t['args'][1]))
+    if idx[0] != 'mlocal':
+        return None
+    l = idx[1]
+    cont = psc.unref(recv)
+    inits, decs = [], []
+    for d in fn.defs().get(l, []):
+        if d[0] == 'call':
+            v = strip(sym_call(fn, d[2]))
+        else:
+            v = strip(psc.sym_rv(fn, d[3]))
+        if v[0] == 'binop' and v[1] == 'Sub' and strip(v[2]) == ('mlocal', l) and strip(v[3])[0] == 'int' and strip(v[3])[1] >= 1:
+            decs.append(d)
+        elif v == ('len', cont):
+            inits.append(d)
+        else:
+            return None
+    if len(inits) != 1 or not decs:
+        return None
+    ib = inits[0][1]
+    dec_blocks = {d[1] for d in decs}
+    b = site['block']
+    # every path from the initialisation to the access passes a decrement
+    if ib == b or ib in dec_blocks or b in fn.reachable(ib, stop=dec_blocks):
+        return None
+    # the container is the same object at both points and cannot change length
+    # (a redefinition that can only come back to the access through the initialisation re-establishes the relation)
+    after = set()
+    for s_ in fn.succ(ib):
+        after |= fn.reachable(s_, stop={ib})
+    for m_ in psc.mlocals(cont):
+        for d in fn.defs().get(m_, []):
+            if d[1] in after and b in fn.reachable(d[1], stop={ib}) and not (d[1] == b and d[0] == 'call'):
+                return None
+    if not _shared_root(fn, cont):
+        return None
+    return 'D2', 'index counts down from len() of the same (shared, unchanged) container and is decremented before every use'
+
+
 # ---- D3: structural invariants proved by other rules -------------------------------------------
 def _csa_ok(ctx, obligs, construct_prefix=None):
     from rules import csa_run
@@ -449,6 +514,14 @@ def d3_table(ctx):
         ok, why = _csa_ok(ctx, ('R09.1',))
         # constructors establish the base: SymbolTable::new pushes one context, Context::new one scope
         return ok, why or 'enter/leave and new/leave are paired on every path (R09.1)'
+
+    def nonempty_stack(ctx, site):
+        # last()/first()/split_last() of the context stack or of a context's scope stack: never empty (R09.1)
+        a = str(sym(site['f'], site['term']['args'][0]))
+        if any(m_ in a for m_ in ('::last', '::last_mut', '::first', '::first_mut', '::split_last', '::split_first', '::split_last_mut')) and \
+                ("'contexts'" in a or "'symbols'" in a):
+            return symbols_pairing(ctx, site)
+        return False, 'not an access to the context / scope stack'
 
     def tag_checked_callers(ctx, site):
         from rules.unsafe_inv import tag_facts, canon, same
@@ -627,6 +700,7 @@ def d3_table(ctx):
         ('symbols::SymbolTable::leave_scope', None, 'R09.1', symbols_pairing),
         ('symbols::SymbolTable::resolve', 'index', 'R09.1', symbols_pairing),
         ('symbols::SymbolTable::reset_to_global', 'index_mut', 'R09.1', symbols_pairing),
+        ('symbols::*', 'unwrap', 'local+R09.1', nonempty_stack),
         ('object::Object::as_f64', 'assert_failed', 'tag-checked callers', tag_checked_callers),
         ('object::Object::as_str', 'assert_failed', 'tag-checked callers', tag_checked_callers),
         ('object::Object::as_string_mut', 'assert_failed', 'tag-checked callers', tag_checked_callers),
@@ -677,7 +751,7 @@ def verdict_for(ctx, s, rows=None, cache=None):
                     verdict = (True, 'ENV: failure of host I/O (%s), not of an input text' % src[1])
         if verdict is None:
             for (rf, rw, rule, ver) in rows:
-                if rf != s['fn']:
+                if rf != s['fn'] and not (rf.endswith('*') and s['fn'].startswith(rf[:-1])):
                     continue
                 if rw is not None and not any(w in what for w in rw.split('|')):
                     continue
@@ -692,14 +766,14 @@ def verdict_for(ctx, s, rows=None, cache=None):
                     except CheckerError:
                         raise
                 ok, why = cache[ck]
-                if rule in ('local', 'R02.6/R17.1'):
+                if rule.startswith('local') or rule == 'R02.6/R17.1':
                     ok, why = ver(ctx, s)
                 if not ok and rule == 'R02.6/R17.1' and 'not covered' in why:
                     continue
                 verdict = (ok, 'D3[%s]: %s' % (rule, why))
                 break
     if verdict is None or not verdict[0]:
-        pd = path_discharge(F, s)
+        pd = path_discharge(F, s) or countdown_index(F, s)
         if pd:
             verdict = (True, '%s: %s' % pd)
     if verdict is None:
